@@ -207,4 +207,49 @@ def rule_md5_format_agreement(ctx):
     r.floor(10)
 
 
-RULES = [rule_md5_after_install, rule_skip_guard, rule_md5_format_agreement]
+def rule_md5_block_invariant(ctx):
+    """MD5 keeps the number of buffered bytes only modulo 64 (`(m_bits[0] >> 3) & 0x3f` in Update and Final), so after
+    Update() fewer than 64 bytes may be left in the block buffer: a complete block that is only copied, not transformed,
+    is overwritten by the next Update()/Final().  Then the digest depends on how the data was chunked - and the two
+    digests of one file that backup_copy_file() (one Update) and backup_create_md5_file() (4096-byte reads) compare
+    never agree, or agree for different contents."""
+    from ..bounds import Bounds
+    db = ctx.db
+    r = ctx.rule("md5-block-invariant", "in MD5::Update every write into the 64-byte block buffer that is not followed by Transform() on every "
+                 "path to the return leaves at most 63 bytes buffered (interval facts incl. the exit fact of the block loop), matching the "
+                 "`& 0x3f` byte count of Update() and Final()")
+    f = [g for g in db.fns("MD5::Update")]
+    r.require(f, "MD5::Update not found")
+    f = f[0]
+    masks = [expr_str(g, n["i"]) for g in f and [f] + db.fns("MD5::Final") for n in g.all_nodes() if n["k"] == "bin" and n.get("op") == "&" and expr_str(g, n["a"][1]).lower() in ("63", "0x3f")]
+    r.require(len(masks) >= 2, "the modulo-64 byte count (`& 0x3f`) of MD5::Update/Final was not found")
+    cps = [n for n in f.all_nodes() if n["k"] == "call" and n.get("c") in ("memcpy", "memmove") and len(n.get("a", ())) == 3]
+    r.require(len(cps) >= 3, "MD5::Update: %d memcpy calls" % len(cps))
+    n_tail = 0
+    for n in cps:
+        # a copy after which the function can return without Transform(): the bytes stay buffered
+        w = f.exit_reachable_avoiding(n["i"], lambda y: y["k"] == "call" and (y.get("c") or "").endswith("Transform"))
+        if not w:
+            continue
+        dest = expr_str(f, n["a"][0])
+        if dest not in ("this->m_in32", "this->m_in8"):
+            # partial fill at an offset (p = m_in8 + t): bounded by `len < t` with t = 64 - t0: checked by C06.bounded-copy
+            continue
+        n_tail += 1
+        r.seen()
+        B = Bounds(db, f, n["i"])
+        lb, ub = B.interval(n["a"][2])
+        r.check(ub is not None and ub <= 63, "MD5::Update/tail-copy(%s)" % expr_str(f, n["a"][2]), db.loc(f, n),
+                "up to %s bytes are left in the 64-byte block buffer without a Transform(): a complete block is dropped when the data "
+                "ends on a block boundary, so the digest depends on the chunking of the input" % (ub if ub is not None else "an unbounded number of"))
+    r.require(n_tail >= 1, "MD5::Update: the copy of the remaining bytes was not found")
+    r.floor(1)
+
+
+def rule_inplace_name(ctx):
+    """the backup protocol runs only when do_source_file recognises the in-place case (shared with C13)"""
+    from . import c13
+    c13.rule_inplace_name(ctx)
+
+
+RULES = [rule_md5_after_install, rule_skip_guard, rule_md5_format_agreement, rule_md5_block_invariant, rule_inplace_name]
